@@ -5,13 +5,13 @@ CHECKS=${@:-$(python3 -c "import json; print(' '.join(c['property_id'] for c in 
 OUT=benign/matrix.tsv
 for s in benign/*/; do
   n=$(basename $s)
+  D=$(mktemp -d /tmp/mutrepo-XXXXXX); cp -r /repo/include $D/include
+  (cd $D && patch -s -p1 < /verif/$s/patch.diff) || { echo "$n	-	patch-failed" >> $OUT; rm -rf $D; continue; }
   for c in $CHECKS; do
     if grep -q "^$n	$c	" $OUT 2>/dev/null; then continue; fi
-    D=$(mktemp -d /tmp/mutrepo-XXXXXX); cp -r /repo/include $D/include
-    (cd $D && patch -s -p1 < /verif/$s/patch.diff) || { echo "$n	$c	patch-failed" >> $OUT; rm -rf $D; continue; }
-    res=$(SYMX_REPO=$D SYMX_REPLAY=$D/replay VERIF_JOBS=${VERIF_JOBS:-8} timeout 2400 ./check $c --tier quick --no-evidence 2>&1)
+    res=$(SYMX_REPO=$D SYMX_REPLAY=$D/replay SYMX_BUILD=$D/build VERIF_JOBS=${VERIF_JOBS:-8} timeout 2400 ./check $c --tier quick --no-evidence 2>&1)
     rc=$?
     echo "$n	$c	rc=$rc	$(printf '%s\n' "$res" | grep -E '^VIOLATION|^UNCONFIRMED|^TASK-ERROR|BUILD FAILED|TRANSLATOR|SOLVER-DIS' | head -2 | tr '\n' ' ' | cut -c1-300)" >> $OUT
-    rm -rf $D
   done
+  rm -rf $D
 done
